@@ -1,8 +1,10 @@
 // C09 harness — cancellation is honoured everywhere; context-aware I/O yields exact prefixes.
-//   part (a) safeio.go : instrumented streams against ReadAtMost / ReadAll / CopyDataWithContext / CopyNWithContext /
-//                        WriteString / ReadFileContent
-//   part (b) fsops.go  : every context-accepting entry point of the filesystem API on the recording shim:
-//                        context done before the call; context cancelled from inside the k-th backend operation
+//
+//	part (a) safeio.go : instrumented streams against ReadAtMost / ReadAll / CopyDataWithContext / CopyNWithContext /
+//	                     WriteString / ReadFileContent
+//	part (b) fsops.go  : every context-accepting entry point of the filesystem API on the recording shim:
+//	                     context done before the call; context cancelled from inside the k-th backend operation
+//
 // The oracles are stated on the implementation's observations; the Coq model (coq/C09/Model.v) is evaluated on the
 // same observations by the correspondence cases.
 package main
@@ -154,7 +156,7 @@ var modelled = map[string]string{
 	"Walk": "(EWalk 0)", "LsRecursive": "(EWalk 0)", "LsRecursiveLimits": "(EWalk 0)", "LsRecursiveOpened": "(EWalk 0)",
 	"Chmod": "EChmod", "Chown": "EChmod", "ChangeOwnership": "EChmod",
 	"ListDirTree": "EListTree",
-	"Remove": "ERemove", "RemoveWithPrivileges": "ERemove", "CleanDir": "EClean",
+	"Remove":      "ERemove", "RemoveWithPrivileges": "ERemove", "CleanDir": "EClean",
 	"Copy": "ECopy", "CopyBetweenFS": "ECopy", "MoveNoRename": "EMoveNoRename",
 }
 
@@ -334,6 +336,7 @@ func main() {
 		return
 	}
 	corpus(r)
+	ioHugeFiles(r)
 	ioDeterministic(r)
 	ioRandom(r, r.N(200, 3000), false)
 	ioRandom(r, r.N(60, 1500), true) // oracle only
@@ -380,7 +383,7 @@ func osLinks(r *h.Run) {
 		}
 	}
 	// cancellation from inside the k-th backend operation, every k, on the tree with links
-	for _, name := range []string{"Remove", "RemoveExcl", "RemoveWithPrivileges", "CleanDir", "Walk", "LsRecursive", "ListDirTree", "Chmod"} {
+	for _, name := range []string{"Remove", "RemoveExcl", "RemoveWithPrivileges", "RemoveWithPrivilegesFault1", "RemoveWithPrivilegesFault4", "CleanDir", "Walk", "LsRecursive", "ListDirTree", "Chmod"} {
 		ep := findEP(name)
 		if ep == nil {
 			continue
